@@ -6,10 +6,11 @@ from . import _nodecommon
 
 ID = "C03"
 SUITES = ["core", "node"]
-LEAN_MODULES = ["VpnCloud.Proofs.C03", "VpnCloud.Proofs.C04Session"]
+LEAN_MODULES = ["VpnCloud.Proofs.C03", "VpnCloud.Proofs.C04Session", "VpnCloud.Proofs.GuardsUsed"]
 THEOREMS = ["VpnCloud.Proofs.C03." + n for n in ("window_refines", "decrypt_authentic", "everySecond_slots", "threshold_mono", "dies_in_two_ticks", "newest_always_accepted", "any_order_inside_window")] + [
     "VpnCloud.Proofs.C04Session." + n for n in ("session_window_refines", "session_history_admissible", "session_accept_iff", "per_slot_independent", "tick_ages_every_slot",
         "rotate_resets_slot", "rotate_resets_history", "overwritten_key_rejected_forever", "overwritten_key_rejected_forever_session", "dies_in_two_ticks_session")]
+THEOREMS = THEOREMS + ["VpnCloud.Proofs.GuardsUsed." + n for n in ('nonceTooOld_boundary', 'seenAdvances_boundary')]
 BATCH = 100
 SEARCH_BUDGET_S = 300
 EXPECTED_CLASSES = ["seal:d", "deliver:ok", "deliver:err", "tick:ok"]
